@@ -9,22 +9,19 @@ range, `moveLeft` below 0, pop of an empty options / group stack, nil unit, slic
 loop carries explicit fuel (`Res.fuel`).  `wp m Q R s` says: started in `s`, `m` returns normally into
 `Q` or with a Go `ErrorCode` into `R` — never a fault, never out of fuel.
 
-FULL STATEMENT (not yet proved as a whole; see `design.d/C10-parser.md`):
-
-    theorem parse_total (E : Env) : (∃ t, parse E = .ok t) ∨ (∃ c, parse E = .error c)
-
-What is proved here: the loop rule that reduces it to per-turn progress (`loop_fuel_sufficient`), and
-the scanner layer (`scanners_total_partial`): every leaf scanner and `scanCharEscape`,
-`scanECMACapname`, `scanCapname`, `parseProperty`, the capture-table operations are total, stay inside
-the pattern, never move the position back and touch nothing but position / options / capture tables.
-Missing for the full statement: the same specification for `scanBasicBackslash`, `scanBackslash`,
-`scanGroupOpen` (+ `scanGroupName`, `scanCondition`, `scanPythonNamedBackref`), `scanCharSet`, and the
-progress of `countStep` / `scanStep` (each turn consumes at least one rune) — the symbolic execution
-(`wp_auto`) works on them but needs the bodies split into smaller definitions first (it times out on
-the duplicated continuations).  Until then leg Pr observes it: a `(fault …)` or `(fuel)` answer of the
-model never equals a Go answer, and none occurred in 170 000 generated cases.
+PROVED IN FULL (`parse_total`): for every pattern, option set and oracle, `Parse` (with the fuel
+`length + 1` the model gives its two outer loops, or any larger fuel) returns a tree or an `ErrorCode`:
+the model never faults (no pattern index out of range, no `moveLeft` below 0, no pop of an empty
+options / group stack, no nil unit, no bad slice, no `capnamelist[0]` on an empty list) and no loop
+runs out of fuel.  The proof: every scanner is specified by symbolic execution (`Scans`, `ScansF`:
+position inside the pattern and not behind a floor, only position / options / capture tables
+touched); the class scanner by an induction over its fuel (`2·(length − pos) + 1`); the two outer loops
+by the loop rule with the invariants "capnames ≠ nil → capnamelist ≠ []" (pre-scan) and "unit = nil
+at the head of a turn, depth of the options stack = depth of the group stack" (main scan), each turn
+consuming at least one rune; the `{`-fallback of the quantifier scan (`textto(startpos-1)`, which would
+not consume) is proved dead after `isTrueQuantifier`.
 -/
-import RegexVerif.Lemmas.ParserScan2
+import RegexVerif.Lemmas.ParserRoot
 
 namespace RegexVerif.Props.C10
 open RegexVerif.Parser
@@ -47,7 +44,7 @@ theorem loop_fuel_sufficient {β γ : Type} (E : Env) (f : β → M (Sum β γ))
 /-- non-vacuity: the name loop of `scanECMACapname` is such a loop (its proof instantiates the rule) -/
 example (E : Env) : Scans E (scanECMACapname E) := scans_scanECMACapname E
 
-/-- **The scanner layer is total (partial result towards `parse_total`).**  From every position
+/-- **The scanner layer is total (the first part; `scanners_total` has the large scanners).**  From every position
     inside the pattern each of these scanners returns — normally or with a Go `ErrorCode` — in a state
     whose position is not behind the start, is still inside the pattern, and which differs from the
     start state only in position / options / ignoreNextParen / capture tables (`Adv`); no pattern index
@@ -82,5 +79,148 @@ theorem scanBlank_bounds (x : Bool) (r : List Nat) :
 
 example : blankGo true .normal [32, 35, 99, 10, 40, 63, 35, 120, 41, 97] 0 = (9, false) := by decide
 example : blankGo false .normal [40, 63, 35, 120] 0 = (4, true) := by decide
+
+/-- **The rest of the scanner layer is total.**  The same specification as in
+    `scanners_total_partial` for the large scanners: `scanBasicBackslash`, `scanBackslash` (both modes),
+    `scanCharSet` with the fuel the parser gives it (both modes; nested classes included),
+    `scanGroupOpen` (every `(?…` construct: names, numbers, balancing groups, conditions, inline options,
+    `(?P<…>`), `scanPythonNamedBackref` (given the three runes `?P=` its caller has seen), and the
+    pre-scan helpers.  `scanCondition` may end one rune to the left of its start (the inner `(` of
+    `(?(`), never further (`ScansBack`). -/
+theorem scanners_total (E : Env) :
+    (∀ so, Scans E (scanBasicBackslash E so)) ∧ (∀ so, Scans E (scanBackslash E so)) ∧
+    (∀ ci so, Scans E (scanCharSet E (2 * E.pat.length + 4) ci so)) ∧
+    Scans E (scanGroupOpen E) ∧ ScansBack E (scanCondition E) ∧
+    (∀ start close, ScansF E start 1 start (scanGroupName E start close)) ∧
+    ScansK E 3 (scanPythonNamedBackref E) :=
+  ⟨scans_scanBasicBackslash E, scans_scanBackslash E, scans_scanCharSet E, scans_scanGroupOpen E,
+   scans_scanCondition E, scansF_scanGroupName E, scans_scanPythonNamedBackref E⟩
+
+/-- non-vacuity: `[a` — the class scanner started after the `[` returns `unterminatedBracket` at the end
+    of the pattern; `(?<` at the end of the pattern: `scanGroupOpen` returns `unrecognizedGrouping` -/
+def orc0 : Oracles where
+  isWord := fun _ => false
+  ecmaStart := fun _ => false
+  ecmaPart := fun _ => false
+  toLower := fun r => r
+  isLower := fun _ => false
+  isUpper := fun _ => false
+  orbit := fun _ => []
+  participates := fun _ => false
+  cat := fun _ _ => false
+  catName := fun _ => none
+def env0 (p : List Nat) : Env := { pat := p, opts := {}, mco := false, orc := orc0 }
+
+example : ∃ s', scanCharSet (env0 [91, 97]) 8 false false { pos := 1 } = .err .unterminatedBracket s' ∧ s'.pos = 2 :=
+  ⟨_, rfl, rfl⟩
+example : ∃ s', scanGroupOpen (env0 [40, 63, 60]) { pos := 1 } = .err .unrecognizedGrouping s' ∧ s'.pos = 3 :=
+  ⟨_, rfl, rfl⟩
+
+/-- **One turn of the capture pre-scan consumes at least one rune** and keeps "capnames ≠ nil →
+    capnamelist ≠ []"; it never pops an empty options stack (the `)` case tests it, the `(?i)` case
+    pops what the same turn pushed).  So `countCaptures` terminates within `length` turns. -/
+theorem countStep_progress (E : Env) (s : PS) (hs : s.pos < E.pat.length) :
+    wp (countStep E) (fun _ s' => AdvC E (s.pos + 1) s s') (AdvC E (s.pos + 1) s) s :=
+  wp_countStep E s hs
+
+/-- non-vacuity: the pre-scan of `(` from position 0: one rune consumed, the options pushed -/
+example : ∃ s', countStep (env0 [40]) {} = .ok () s' ∧ s'.pos = 1 ∧ s'.optionsStack.length = 1 := ⟨_, rfl, rfl, rfl⟩
+
+/-- **The capture pre-scan is total**: from any position inside the pattern, with any fuel above the
+    number of runes left, `countCaptures` returns its tables or an `ErrorCode` (`duplicateGroupName`,
+    `captureGroupOutOfRange`, …) — no fault (in particular `assignNameSlots` never indexes an empty
+    `capnamelist`), no fuel exhaustion. -/
+theorem countCaptures_total (E : Env) (s : PS) (hs : s.pos ≤ E.pat.length) (n : Nat)
+    (hn : E.pat.length - s.pos < n) :
+    wp (countCaptures E n) (fun _ s' => s'.pos ≤ E.pat.length) (fun _ => True) s :=
+  wp_countCaptures E s hs n hn
+
+example : ∃ t s', countCaptures (env0 [40, 97, 41]) 4 {} = .ok t s' ∧ t.captop = 2 := ⟨_, _, rfl, rfl⟩
+
+/-- **One turn of `scanRegex` leaves the loop or consumes at least one rune**, and re-establishes the
+    invariant of the loop head: position inside the pattern, unit = nil, depth of the options stack =
+    depth of the group stack.  In particular `)` never pops an empty options or group stack,
+    `addConcatenate` never meets a nil unit, `addToConcatenate` never slices outside the pattern, and
+    the quantifier scan never takes its `{`-fallback (which would move the position back to the `{`). -/
+theorem scanStep_progress (E : Env) (b : Bool) (s : PS) (hs : s.pos < E.pat.length) (hu : s.unit = none)
+    (hl : s.optionsStack.length = s.stack.length) :
+    wp (scanStep E b)
+      (fun r s' => match r with
+        | .inl _ => TurnInv E s' ∧ E.pat.length - s'.pos < E.pat.length - s.pos
+        | .inr _ => True)
+      (fun _ => True) s :=
+  wp_scanStep E b s hs hu hl
+
+/-- non-vacuity: the state `Parse` starts the main scan in satisfies the hypotheses -/
+example (E : Env) (t : Groups.Tables) (h : 0 < E.pat.length) :
+    (resetState E t).pos < E.pat.length ∧ (resetState E t).unit = none ∧
+    (resetState E t).optionsStack.length = (resetState E t).stack.length := ⟨h, rfl, rfl⟩
+
+/-- **`isTrueQuantifier` guarantees the quantifier syntax**: at a `{` that `isTrueQuantifier` accepted,
+    `{n}` / `{n,}` / `{n,m}` is read to its closing brace — the "not a quantifier after all" branch of
+    `scanRegex` (add the unit, go back to the `{`) is dead code.  An overflowing number is the error
+    `captureGroupOutOfRange`. -/
+theorem quantifier_fallback_dead (E : Env) (s : PS) (hb : EscapeParse.isTrueBrace (E.pat.drop s.pos) = true) :
+    wp (quantBrace E) (fun r s' => r.isSome = true ∧ s.pos ≤ s'.pos ∧ s'.pos ≤ E.pat.length) (fun _ => True) s :=
+  wp_quantBrace E s hb _ (fun _ _ _ h1 h2 => ⟨rfl, h1, h2⟩)
+
+example : EscapeParse.isTrueBrace ((env0 [97, 123, 50, 44, 125]).pat.drop 2) = true := by decide
+
+/-- **The main scan is total**: started at the head of a turn (unit = nil, stacks of equal depth) with
+    any fuel above the number of runes left, `scanRegex` returns the root node or an `ErrorCode`. -/
+theorem scanRegex_total (E : Env) (s : PS) (hs : s.pos ≤ E.pat.length) (hu : s.unit = none)
+    (hl : s.optionsStack.length = s.stack.length) (n : Nat) (hn : E.pat.length - s.pos < n) :
+    wp (scanRegex E n) (fun _ _ => True) (fun _ => True) s :=
+  wp_scanRegex E s hs hu hl n hn
+
+/-- non-vacuity: the main scan of `a|b` from the state `Parse` starts it in returns the root Capture -/
+example : ∃ r s', scanRegex (env0 [97, 124, 98]) 4 { g := { caps := [0], captop := 1, autocap := 1 } } = .ok r s' ∧
+    r.t = .capture ∧ s'.pos = 3 := ⟨_, _, rfl, rfl, rfl⟩
+
+/-- **C10 for the parser: `Parse` is total.**  For every pattern (any list of runes), every option
+    set, `MaintainCaptureOrder` flag and every oracle, the parser model with the fuel `length + 1` that
+    `parse` gives its two outer loops (or any larger fuel) returns a raw tree with its capture tables
+    or a Go `ErrorCode`; never `fault` (a Go run-time panic: pattern index out of range, `moveLeft`
+    below 0, pop of an empty options / group stack, nil unit, slice bounds, empty `capnamelist`),
+    never `fuel`.  Leg Pr ties the model to `syntax.VerifParseRaw` by exact equality of trees, tables
+    and ErrorCodes. -/
+theorem parse_total (pat : List Nat) (opts : Opts) (mco : Bool) (orc : Oracles) (fuel : Nat)
+    (hf : pat.length < fuel) :
+    let E : Env := { pat := pat, opts := opts, mco := mco, orc := orc }
+    (∃ t, parseFuel E fuel = .ok t) ∨ (∃ c, parseFuel E fuel = .error c) :=
+  parseFuel_total { pat := pat, opts := opts, mco := mco, orc := orc } fuel hf
+
+/-- `parse` itself (fuel `length + 1`) -/
+theorem parse_total' (E : Env) : (∃ t, parse E = .ok t) ∨ (∃ c, parse E = .error c) :=
+  parseFuel_total E _ (Nat.lt_succ_self _)
+
+/-- both outcomes occur: the empty pattern, `a`, `)`, `a{2,1}` -/
+example : ∃ t, parse (env0 []) = .ok t := ⟨_, by rfl⟩
+set_option maxRecDepth 8000 in
+example : ∃ t, parse (env0 [97]) = .ok t := ⟨_, by rfl⟩
+example : parse (env0 [41]) = .error .unexpectedParen := by rfl
+set_option maxRecDepth 8000 in
+example : parse (env0 [97, 123, 50, 44, 49, 125]) = .error .invalidRepeatSize := by rfl
+
+/-- **The root of the raw tree (partial `parse_wf`).**  Whenever `Parse` returns a tree, its root is
+    the Capture node number 0 with exactly one child (the Alternate node of the whole pattern): the
+    first two conjuncts of `wfTree` and the child count of the root.  Invariant: the group at the bottom
+    of the group stack is the Capture 0 that `scanRegex` starts with, without children until the final
+    `addGroup`.
+
+    FULL STATEMENT (not proved): `parse_wf : parseFuel E fuel = .ok t → wfTree t = true` — every node
+    locally well-formed (child count per node type, a set exactly on the set family, `0 ≤ M ≤ N`, Multi of
+    at least two runes) and every Ref / BackRefCond / Capture number registered in `caps`.  The last
+    part needs a simulation between the capture pre-scan and the main scan (they must agree on which
+    parentheses capture); the driver evaluates `wfTree` on every answer of leg Pr instead. -/
+theorem parse_wf_partial (pat : List Nat) (opts : Opts) (mco : Bool) (orc : Oracles) (fuel : Nat)
+    (hf : pat.length < fuel) (t : RawTree)
+    (h : parseFuel { pat := pat, opts := opts, mco := mco, orc := orc } fuel = .ok t) :
+    t.root.t = .capture ∧ t.root.m = 0 ∧ t.root.kids.length = 1 :=
+  parseFuel_root { pat := pat, opts := opts, mco := mco, orc := orc } fuel hf t h
+
+set_option maxRecDepth 8000 in
+/-- non-vacuity: `a` parses (so the hypothesis holds for its tree) -/
+example : ∃ t, parseFuel (env0 [97]) 2 = .ok t ∧ t.root.kids.length = 1 := ⟨_, by rfl, by rfl⟩
 
 end RegexVerif.Props.C10
